@@ -213,6 +213,23 @@ def own_td_execs(rng, scale):
             if rng.random() < 0.35:
                 cmds.append("td %d" % rng.randint(0, 60))
         out.append((h, cmds))
+    # memory that is still alive in an EARLIER iteration is the iteration allocator's own as well
+    for N in (2, 3, 4, 5):
+        for bs in (256, 1024):
+            h = {"fam": "iter", "N": N, "src": "grow", "place": rng.choice(["lo", "hi"]), "member": 0, "bs": bs}
+            cmds = ["an 8 8", "an 4 4", "aa 2 4 4", "ni", "an 8 8", "td 0", "td 0", "an 4 4", "td 0"]
+            if N > 2:
+                cmds += ["ni", "an 4 4", "td 0", "td 0", "td 0"]
+            out.append((h, cmds))
+    # arrays that end exactly where the pool's block ends: whole blocks handed out as arrays, then released composably
+    for ptype in ("array", "node"):
+        for ns, nodes, per in ((16, 8, 4), (16, 8, 2), (8, 12, 3), (32, 6, 6), (24, 9, 3)):
+            h = {"fam": "pool", "type": ptype, "src": "grow", "ns": ns, "nodes": nodes, "extra": 0,
+                 "place": rng.choice(["lo", "hi"]), "member": rng.choice([0, 1])}
+            k = nodes // per
+            cmds = ["aa %d %d %d" % (per, ns, 8)] * k + ["td %d" % (k - 1)] + ["td 0"] * (k - 1)
+            cmds += ["aa %d %d %d" % (per, ns, 8)] * (2 * k) + ["td %d" % i for i in range(2 * k - 1, -1, -1)]
+            out.append((h, cmds))
     return out
 
 
